@@ -853,6 +853,9 @@ type SkewNew struct {
 	X12 []float64
 	X13 []time.Time
 	G   string
+	U   uint64
+	X14 uint64
+	V   uint
 }
 
 type SkewOld struct {
@@ -863,4 +866,6 @@ type SkewOld struct {
 	E int64
 	F []*Inner
 	G string
+	U uint64
+	V uint
 }
